@@ -426,6 +426,11 @@ func runC16(ctx *core.Ctx, idx int) *core.Result {
 		switch ft.Input {
 		case "unparseable-source":
 			files[tgt].src = "package p\n\nfunc broken( {\n\tbump(1)\n"
+			if tgt%2 == 1 {
+				// generated from a grammar: a //line directive gives the errors another file's name; the file that could
+				// not be processed is still this one
+				files[tgt].src = "package p\n\n//line /home/ci/build/pkg/parser.y:57\nfunc broken( {\n\tbump(1)\n"
+			}
 			expectFailFile, causeWords = files[tgt].name, []string{"expected"}
 		case "unparseable-source-of-another-package":
 			// every change of the patch names its package; a file of another package that does not parse is still a
